@@ -733,6 +733,37 @@ fn union_large_lgk(out: &mut Shards, rng: &mut Rng, lgk: u8) {
     }
 }
 
+/// level inputs: every register holds the same non-zero value (an Hll4 array with cur_min >= 1 and all
+/// registers at cur_min is not empty)
+fn union_level(out: &mut Shards, rng: &mut Rng, lgk: u8) {
+    let mut s = Sess::new(out, "hll-union-level");
+    let k = 1u32 << lgk;
+    let mut ins = vec![];
+    for (t, v) in [(4u8, 1u32), (6, 1), (8, 2), (4, 2)] {
+        let id = s.new_sketch(lgk, t);
+        for slot in 0..k {
+            for val in 1..=v {
+                s.upd(id, pack(slot, val));
+            }
+        }
+        s.chk(id);
+        ins.push(id);
+    }
+    for &first in &[0usize, 3, 1] {
+        let u = s.new_union(lgk + (rng.below(2) as u8));
+        s.uupd(u, ins[first]);
+        s.uchk(u);
+        s.utosk3(u);
+        s.uupd(u, ins[(first + 1) % 4]);
+        s.uchk(u);
+        let outs = s.utosk3(u);
+        // a level result as an input again
+        let u2 = s.new_union(lgk);
+        s.uupd(u2, outs[0]);
+        s.uchk(u2);
+    }
+}
+
 pub fn record_union(args: &Args) {
     let seed = args.u64("seed", 1);
     let mut rng = Rng::new(seed ^ 0x0C03);
@@ -749,6 +780,8 @@ pub fn record_union(args: &Args) {
         for &(lgk, lgmax) in &[(4u8, 4u8), (6, 8), (8, 8), (9, 7), (10, 12)] {
             union_single_ooo(&mut out, &mut rng, lgk, lgmax);
         }
+        union_level(&mut out, &mut rng, 4);
+        union_level(&mut out, &mut rng, 5);
         union_large_lgk(&mut out, &mut rng, 13);
         if thorough {
             union_large_lgk(&mut out, &mut rng, 14);
